@@ -9,7 +9,7 @@ GENERATORS["FacadeConsts"] -> Generated/FacadeConsts.lean
         evaluates `str(sender)`
 
 MULTI["C11Combos"] -> Generated/C11Combos/<module>.lean, Generated/C11Combos/Universe.lean, Generated/C11CombosIndex.lean
-    * Universe: every output key any shipped config table advertises
+    * Universe: per platform, every output key one of its config tables advertises
     * one file per config / log table with ONE kernel-evaluated obligation: `cfgOKb U m = true` / `logOKb U m = true`
       (what the table contributes to `Facade.Req`), emitted only when the Python reading of the same predicate says it holds
       (a wrong guess can only make the Lean build fail)
@@ -253,32 +253,37 @@ def gen_combos():
         raise Untranslatable(f"import of geckolib.const failed: {type(e).__name__}: {e}")
     if any(m["kind"] == "unknown" for m in mods):
         raise Untranslatable("a pack module of unknown kind")
-    U = list(dict.fromkeys(o for m in mods if m["kind"] == "cfg" for o in m["outputKeys"]))
+    # per platform: every output key one of its config tables advertises
+    plats = [m["name"] for m in mods if m["kind"] == "pack"]
+    U = {p: list(dict.fromkeys(o for m in mods if m["kind"] == "cfg" and m["declPlatform"] == p for o in m["outputKeys"])) for p in plats}
     sub, ns = "C11Combos", f"{NS}.C11Combos"
     out = {}
-    out[f"{sub}/Universe.lean"] = "\n".join([
-        T.HEADER, f"namespace {ns}", "/-- every output key a shipped config table advertises -/",
-        f"def outputUniverse : List String := {_llist(U)}", f"end {ns}\n"])
+    out[f"{sub}/Universe.lean"] = "\n".join(
+        [T.HEADER, f"namespace {ns}", "/-- per platform: every output key one of its shipped config tables advertises -/"] +
+        [f"def outputs_{packs.lname(p.lower())} : List String := {_llist(U[p])}" for p in plats] + [f"end {ns}\n"])
     ok = {}
     for m in mods:
         if m["kind"] not in ("cfg", "log"):
             continue
         n = packs.lname(m["file"])
-        good = cfg_ok(U, m) if m["kind"] == "cfg" else log_ok(U, m, devices_table)
+        if m["declPlatform"] not in U:
+            raise Untranslatable(f"{m['file']}: declared platform {m['declPlatform']!r} has no platform module")
+        un = "outputs_" + packs.lname(m["declPlatform"].lower())
+        good = cfg_ok(U[m["declPlatform"]], m) if m["kind"] == "cfg" else log_ok(U[m["declPlatform"]], m, devices_table)
         ok[m["file"]] = good
         fn = "cfgOKb" if m["kind"] == "cfg" else "logOKb"
-        text = [T.HEADER, "import GeckoModel.Model.Facade", f"import GeckoModel.Generated.Packs.{n}", f"import GeckoModel.Generated.{sub}.Universe",
+        text = [T.HEADER, "import GeckoModel.Model.FacadeReq", f"import GeckoModel.Generated.Packs.{n}", f"import GeckoModel.Generated.{sub}.Universe",
                 "set_option maxRecDepth 100000", f"namespace {ns}", "open GeckoModel GeckoModel.Facade"]
         if good:
             text.append(f"/-- what `{m['file']}` contributes to `Facade.Req`, evaluated by the kernel over the whole table -/\n"
-                        f"theorem part_{n} : {fn} outputUniverse Packs.{n} = true := by decide +kernel")
+                        f"theorem part_{n} : {fn} {un} Packs.{n} = true := by decide +kernel")
         else:
             text.append(f"/-- `{m['file']}` does not meet the per-table requirement (every combination with it must be in `knownUnbuildable`) -/\n"
-                        f"theorem nopart_{n} : {fn} outputUniverse Packs.{n} = false := by decide +kernel")
+                        f"theorem nopart_{n} : {fn} {un} Packs.{n} = false := by decide +kernel")
         text.append(f"end {ns}\n")
         out[f"{sub}/{n}.lean"] = "\n".join(text)
     cs = combos(mods)
-    idx = [T.HEADER, "import GeckoModel.Model.Facade", "import GeckoModel.Proofs.FacadeParts", "import GeckoModel.Generated.PacksIndex"]
+    idx = [T.HEADER, "import GeckoModel.Model.FacadeReq", "import GeckoModel.Proofs.FacadeParts", "import GeckoModel.Generated.PacksIndex"]
     idx += [f"import GeckoModel.Generated.{sub}.{packs.lname(m['file'])}" for m in mods if m["kind"] in ("cfg", "log")]
     idx += ["set_option maxRecDepth 100000", f"namespace {ns}", "open GeckoModel GeckoModel.Facade"]
     idx.append("/-- every platform x config x log combination of the shipped tables -/\ndef allCombos : List Combo := [\n" + ",\n".join(
@@ -289,7 +294,7 @@ def gen_combos():
     for i, (p, c, l) in enumerate(cs):
         cn, ln = packs.lname(c["file"]), packs.lname(l["file"])
         if ok[c["file"]] and ok[l["file"]]:
-            parts.append(f"fun _ => req_of_parts outputUniverse _ _ part_{cn} part_{ln}")
+            parts.append(f"fun _ => req_of_parts outputs_{packs.lname(p['name'].lower())} _ _ part_{cn} part_{ln}")
         else:
             # must be listed: `decide` evaluates the membership in the (short) hand-written list
             parts.append("fun h => absurd (by decide) h")
